@@ -10,6 +10,8 @@ package vtime
 import (
 	"sync"
 	"time"
+
+	"github.com/ossrs/go-oryx-lib/verifshim/vsched"
 )
 
 var (
@@ -141,4 +143,58 @@ func Slept() []time.Duration {
 	mu.Lock()
 	defer mu.Unlock()
 	return append([]time.Duration{}, slept...)
+}
+
+// ---------------------------------------------------------------- timers (rule R2b)
+
+var (
+	timerMu   sync.Mutex
+	vtimers   = map[*time.Timer]*vtimer{}
+	// TimeoutsEnabled lets a harness switch the timeout choice on per scenario.
+	TimeoutsEnabled bool
+)
+
+type vtimer struct {
+	ch     chan time.Time
+	finite bool
+	fired  bool
+}
+
+// NewTimer returns a real timer when no scheduler execution is active. Under the scheduler it returns a
+// timer that never fires by itself (its channel is owned by this package): MaybeTimeout fires it.
+func NewTimer(d time.Duration) *time.Timer {
+	if !vsched.Active() {
+		return time.NewTimer(d)
+	}
+	t := time.NewTimer(24 * 365 * time.Hour)
+	ch := make(chan time.Time, 1)
+	t.C = ch
+	timerMu.Lock()
+	if len(vtimers) > 4096 {
+		vtimers = map[*time.Timer]*vtimer{}
+	}
+	vtimers[t] = &vtimer{ch: ch, finite: d < 500*time.Hour}
+	timerMu.Unlock()
+	return t
+}
+
+// MaybeTimeout is called right before a select that waits for a lock channel or the timer. If the
+// lock is unavailable now, the timer has a finite duration and the scheduler chooses so (a costed
+// deviation), the timer fires and true is returned: the caller must run the select at once.
+func MaybeTimeout(t *time.Timer, lockAvailable func() bool) bool {
+	if !vsched.Active() || !TimeoutsEnabled {
+		return false
+	}
+	timerMu.Lock()
+	vt := vtimers[t]
+	timerMu.Unlock()
+	if vt == nil || !vt.finite || vt.fired || lockAvailable() {
+		return false
+	}
+	if vsched.Choose(2, false, "lock-wait-times-out") == 1 {
+		vt.fired = true
+		vt.ch <- time.Time{}
+		return true
+	}
+	return false
 }
